@@ -18,6 +18,14 @@ def fixed_cases_for(tier, styles=(None, "jcl"), step=1):
             continue
         for s in styles:
             out.append({"file": f, "level": 0, "lseed": 0, "style": s, "conf": None})
+    # seed-independent re-layouts (one per fixture, level rotating 1..4, layout seed derived from the file name): same cases on every run
+    for i, f in enumerate(corpus.files()[::step]):
+        if len(corpus.lines(f)) > MAXLINES[tier]:
+            continue
+        reps = 1 if tier == "quick" else 3
+        for rep in range(reps):
+            lv = 1 + (i + rep) % 4
+            out.append({"file": f, "level": lv, "lseed": common.stable_seed(f, lv, rep), "tabs": rep == 2, "style": (None, "jcl", "indent_only")[rep % 3], "conf": None})
     return out
 
 
